@@ -43,6 +43,8 @@ pub struct Profile {
     pub unique_values: bool,
     pub keys: usize,
     pub bulk: bool,
+    /// invalid calls may use indexes near usize::MAX
+    pub extreme_indexes: bool,
 }
 
 impl Profile {
@@ -61,6 +63,7 @@ impl Profile {
             unique_values: true,
             keys: 3,
             bulk: true,
+            extreme_indexes: false,
         }
     }
     pub fn no_blocks() -> Profile {
@@ -566,7 +569,7 @@ pub fn invalid_edit<D: Transactable>(d: &mut D, rng: &mut Rng, gs: &mut GenState
         }
         3 | 4 if typ != ObjType::Map && typ != ObjType::Table => {
             kind = "inv_insert_out_of_range";
-            let i = if rng.chance(50) { len + 1 + rng.below(3) } else { usize::MAX };
+            let i = if !gs.profile.extreme_indexes || rng.chance(50) { len + 1 + rng.below(3) } else { *rng.pick(&[usize::MAX, usize::MAX - 1, usize::MAX / 2 + 1]) };
             desc = format!("insert({}, {i}, 1) [index > len {len}]", oid(&obj));
             r = d.insert(&obj, i, 1);
         }
